@@ -91,7 +91,7 @@ void spki_table_free(struct spki_table *spki_table)
 {
 	pthread_rwlock_wrlock(&spki_table->lock);
 
-	tommy_list_foreach(&spki_table->list, free);
+	tommy_list_foreach(&spki_table->list, lrtr_free);
 	tommy_hashlin_done(&spki_table->hashtable);
 
 	pthread_rwlock_unlock(&spki_table->lock);
@@ -103,7 +103,7 @@ void spki_table_free_without_notify(struct spki_table *spki_table)
 	pthread_rwlock_wrlock(&spki_table->lock);
 
 	spki_table->update_fp = NULL;
-	tommy_list_foreach(&spki_table->list, free);
+	tommy_list_foreach(&spki_table->list, lrtr_free);
 	tommy_hashlin_done(&spki_table->hashtable);
 
 	pthread_rwlock_unlock(&spki_table->lock);
